@@ -199,3 +199,5 @@ def run(ctx):
     r3(ctx)
     r4(ctx)
     r5(ctx)
+    from .c10 import selectors
+    selectors(ctx, "C02.R6", pin=True)
